@@ -70,6 +70,10 @@ type c21Case struct {
 	Protocol int       `json:"protocol"`
 	ForceKey bool      `json:"force_key_auth"`
 	Sync     bool      `json:"sync"` // every gate pre-released, drain after every send (exact per-item accounting)
+	// SlowAcks (async histories only): the backend's socket is slow for forwarded
+	// ChatAcknowledgement packets - such a write completes only after the client's
+	// next packet has been handed to the proxy. The queue must hold that packet back.
+	SlowAcks bool `json:"slow_acks,omitempty"`
 	Items    []c21Item `json:"items"`
 	Steps    []c21Step `json:"steps"`
 }
@@ -82,6 +86,8 @@ type c21Conn struct {
 	protocol proto.Protocol
 	ctx      context.Context
 	cancel   context.CancelFunc
+	holdAcks bool            // guarded by mu
+	heldAcks []chan struct{} // guarded by mu
 }
 
 func c21NewConn(p proto.Protocol) *c21Conn {
@@ -109,10 +115,41 @@ func (c *c21Conn) SetOutboundState(*state.Registry)                             
 func (c *c21Conn) SetCompressionThreshold(int) error                             { return nil }
 func (c *c21Conn) EnableEncryption([]byte) error                                 { return nil }
 func (c *c21Conn) WritePacket(p proto.Packet) error {
+	if _, isAck := p.(*chat.ChatAcknowledgement); isAck {
+		// a backend whose socket is slow: the write of a forwarded acknowledgement
+		// completes only when the harness lets it
+		c.mu.Lock()
+		hold := c.holdAcks
+		var gate chan struct{}
+		if hold {
+			gate = make(chan struct{})
+			c.heldAcks = append(c.heldAcks, gate)
+		}
+		c.mu.Unlock()
+		if gate != nil {
+			// (bounded: a caller that writes from the packet handler itself is only delayed)
+			select {
+			case <-gate:
+			case <-time.After(5 * time.Millisecond):
+			}
+		}
+	}
 	c.mu.Lock()
 	c.packets = append(c.packets, p)
 	c.mu.Unlock()
 	return nil
+}
+
+// releaseAcks lets every held acknowledgement write complete.
+func (c *c21Conn) releaseAcks() int {
+	c.mu.Lock()
+	gates := c.heldAcks
+	c.heldAcks = nil
+	c.mu.Unlock()
+	for _, g := range gates {
+		close(g)
+	}
+	return len(gates)
 }
 func (c *c21Conn) Write([]byte) error                { return nil }
 func (c *c21Conn) BufferPacket(p proto.Packet) error { return c.WritePacket(p) }
@@ -410,6 +447,13 @@ func c21Run(c c21Case) verifkit.Result {
 		snapshot[k] = -1
 	}
 	overlap := false
+	slowAcks := c.SlowAcks && !c.Sync
+	heldAck := false
+	if slowAcks {
+		backend.mu.Lock()
+		backend.holdAcks = true
+		backend.mu.Unlock()
+	}
 	wr := verifkit.Watch(15*time.Second, "proxy.", func() {
 		sent := 0
 		pending := map[int]bool{}
@@ -422,6 +466,17 @@ func c21Run(c c21Case) verifkit.Result {
 				curDuring = s.During
 				h.HandlePacket(&proto.PacketContext{Direction: proto.ServerBound, Protocol: protocol, Packet: mkPacket(s.Item)})
 				curDuring = nil
+				if slowAcks {
+					// give whatever the proxy started for this packet a chance to run while an
+					// earlier acknowledgement is still being written, then let the writes finish
+					for y := 0; y < 50; y++ {
+						runtime.Gosched()
+					}
+					time.Sleep(200 * time.Microsecond)
+					if backend.releaseAcks() > 0 {
+						heldAck = true
+					}
+				}
 				for _, j := range s.During {
 					delete(pending, j)
 				}
@@ -437,6 +492,7 @@ func c21Run(c c21Case) verifkit.Result {
 				release(s.Item)
 				delete(pending, s.Item)
 			case "drain":
+				backend.releaseAcks()
 				waitTail()
 				if sent > 0 {
 					snapshot[sent] = len(backend.written())
@@ -448,7 +504,22 @@ func c21Run(c c21Case) verifkit.Result {
 		for j := range gates {
 			release(j)
 		}
+		// (a write may be handed to the backend only now: keep releasing until the tail is done)
+		stop := make(chan struct{})
+		go func() {
+			for {
+				select {
+				case <-stop:
+					return
+				default:
+					backend.releaseAcks()
+					time.Sleep(100 * time.Microsecond)
+				}
+			}
+		}()
 		waitTail()
+		close(stop)
+		backend.releaseAcks()
 	})
 	switch wr.Outcome {
 	case verifkit.Panicked:
@@ -480,6 +551,9 @@ func c21Run(c c21Case) verifkit.Result {
 	}
 	if kicked {
 		labels = append(labels, "player-kicked")
+	}
+	if heldAck {
+		labels = append(labels, "ack-write-held-across-next-packet")
 	}
 	classes := map[string]bool{}
 	for _, it := range c.Items {
@@ -675,6 +749,7 @@ func c21Gen(t *rapid.T) c21Case {
 		Protocol: rapid.SampledFrom([]int{761, 765, 766, 770, 772}).Draw(t, "protocol"),
 		ForceKey: rapid.Bool().Draw(t, "forceKey"),
 		Sync:     rapid.IntRange(0, 3).Draw(t, "sync") == 0,
+		SlowAcks: rapid.IntRange(0, 2).Draw(t, "slowAcks") == 0,
 	}
 	// profile: most histories avoid the outcomes for which findings are already known, so the rest of the space stays explored
 	risky := rapid.IntRange(0, 9).Draw(t, "risky") < 3
@@ -775,6 +850,6 @@ func c21Gen(t *rapid.T) c21Case {
 
 func TestVerif_C21(t *testing.T) {
 	verifkit.Check(t, "C21", "history",
-		"client histories of 1..14 packets over {signed chat(offset; untouched, rewritten or denied by a PlayerChatEvent subscriber), signed command(offset, with/without argument signatures), unsigned command (1.20.5+), ack(offset incl. 0,19..21,39..41,64)} on protocols 1.19.3/1.20.3/1.20.5/1.21.5/1.21.7, command outcome in {unknown=>backend, event forward, event deny, proxy command, proxy command returning an error, event rewrite, rewrite+forward} (30% of histories contain the last three / consumed commands with argument signatures), forceKeyAuthentication on/off; schedule script: proxy-command callbacks block on gates released between later sends, inside later CommandExecuteEvent subscribers, before the send, or only at the end; 25% synchronous histories (drain after every packet) get exact per-packet accounting; verdict from the recorded backend sequence after the future chain's tail completed; non-trivial = a forwarded last-seen packet carried held acknowledgements, or a packet was sent while an earlier command was still executing",
+		"client histories of 1..14 packets over {signed chat(offset; untouched, rewritten or denied by a PlayerChatEvent subscriber), signed command(offset, with/without argument signatures), unsigned command (1.20.5+), ack(offset incl. 0,19..21,39..41,64)} on protocols 1.19.3/1.20.3/1.20.5/1.21.5/1.21.7, command outcome in {unknown=>backend, event forward, event deny, proxy command, proxy command returning an error, event rewrite, rewrite+forward} (30% of histories contain the last three / consumed commands with argument signatures), forceKeyAuthentication on/off; schedule script: proxy-command callbacks block on gates released between later sends, inside later CommandExecuteEvent subscribers, before the send, or only at the end; a third of the asynchronous histories run against a backend whose writes of forwarded acknowledgements complete only after the client's next packet was handed to the proxy; 25% synchronous histories (drain after every packet) get exact per-packet accounting; verdict from the recorded backend sequence after the future chain's tail completed; non-trivial = a forwarded last-seen packet carried held acknowledgements, or a packet was sent while an earlier command was still executing",
 		c21Gen, c21Run)
 }
